@@ -326,6 +326,14 @@ impl FreeSpaceManager {
     }
 }
 
+#[cfg(feoxdb_verif)]
+impl FreeSpaceManager {
+    /// Free runs in ascending start order.
+    pub fn verif_runs(&self) -> Vec<(u64, u64)> {
+        self.by_start.values().map(|space| (space.start, space.size)).collect()
+    }
+}
+
 impl Default for FreeSpaceManager {
     fn default() -> Self {
         Self::new()
